@@ -1750,7 +1750,7 @@ func c18GenMultiUnit(r *hx.Rng, tiny bool) c18World {
 // ---------------------------------------------------------------- entry
 
 func genC18(o *hx.Out, r *hx.Rng, tier string, replay string) error {
-	o.Rule = "command: the REAL cmd/benchseries binary (go build of the module under test) on 1-3 generated files that carry BOTH the default key of every option and an alternative key (alt_stamp alt_run role alt_nh alt_dh; compare values Tip Base Exp Ctl), the selected key carrying a well-formed world and the other one a decoy world, with ONE option non-default at a time: -series -experiment -compare -numerator -denominator -numerator-hash -denominator-hash, both hash flags naming one key, 2-7 of them together, -filter (.unit:U / key:value / .name:N), -confidence (samples of 4-6 values), each CSV switch once (-csv=false -delta -change -values=false -change -threshold=0.5 on exact metrics -boring -log=false), input on stdin (no path / -), -ji with the JSON of an earlier run; flags spelled -f=v, -f v, --f=v; observed: exit status, the -jo JSON (axes, hash pairs, per cell date and summary), stdout; reference: the library with the options the flags are documented to set (both policies through the kind-2 checks; REPLACE with the flag's confidence and 1000 bootstraps for the summaries, JSON bytes and CSV bytes); plus the library alone with BuilderOptions.Table in {none, goos, goarch+goos, builder_id+goos, goos+pad, pad} and Ignore lists (no flag sets them). incremental-builder: ONE Builder: Add a part of a well-formed result set, AllComparisonSeries + AddSummaries, Add the rest (more values for trials already summarised / a further experiment for summarised series points), build and summarise again, under both policies; the second result is compared with FRESH builders over the whole set. series-from-files: 2-3 files read through one benchfmt.Files / Builder.AddFiles in every file order; the builder keys goos runstamp ser role nh dh are file-configuration lines in a shuffled header of 4-7 keys (plus padding keys); every later file omits its own subset, so its results have the empty value there. streams. multi-cell: a ComparisonSeries with 2-9 cells (always one pair with swapped numerator/denominator samples, identical cells, cells sharing only one sample, two series points sharing one baseline) summarised by ONE AddSummaries call, each cell compared with the same samples summarised alone. shared-baseline: DUPE_COMBINE aliasing class (one trial, several hashes, one baseline, each point re-measured by a later experiment). dates: pairs of timestamp texts in both accepted layouts (offsets, fractions incl. >9 digits and ',' separator, calendar edge days, years 0..9999), pairs denoting one instant, neighbouring instants, hostile mutations; range-end: four-digit-year texts whose zone offset moves the instant into year 10000 or year -1, paired with texts on either side of the end. bootstrap: samples (constant, near-constant, few-valued, positive, mixed-sign, zero denominators, extreme-positive: values above MaxFloat64/2, subnormal values, overflowing / underflowing quotients) x N in {1,2,3,50,500,1000,small random} x confidence in {0.5,0.9,0.95,0.99,edge,random}, through Builder.Add/AllComparisonSeries/AddSummaries and the tagged hooks, math/rand Intn stream recorded for replay. series: result sets over <=2 units x <=2 tables x <=3 benchmarks x <=4 experiments x <=4 hashes/series stamps (stamps in mixed layouts), well-formed worlds plus mutations a-g leaving the well-formed domain (judged in full: prop_ok compares them with spec_series too; the four series findings excuse only the places of Model/SeriesFindings.v), ill-formed: worlds whose mutation took effect, the five witnesses of the findings in every add order, alone and next to a well-formed table; each added in N random orders under DUPE_REPLACE and DUPE_COMBINE; AddSummaries (confidence in {0.5,0.9,0.95,0.99}, N in {1,2,3,5,8}) on the series of every run, each cell compared with the same multiset summarised as one experiment, Intn stream recorded per cell. interleaved-experiments: every series point measured by 2-3 experiments whose numerator and denominator values interleave (COMBINE must return the sorted multiset; summaries equal across add orders). multi-value-unit-lists: results carrying 2-3 values, same table keys, partially overlapping unit lists (ns/op B/op | ns/op MB/s | B/op ns/op ...) adjacent in the add order, 4-result sets in ALL 24 orders. spellings-of-one-instant: every result spells the series stamp of its hash in its own way (compact, Z, +00:00 / -00:00 with fractions .000 .500000 ,5 and >9 digits, another offset), instants differing only in the fraction; date pairs of such spellings (same instant, neighbours). non-trivial = more than 3 measurements / a date accepted / a sample of more than one value"
+	o.Rule = "same-unit-twice-on-a-line (c18dup.go): every result carries a unit list with a repeated unit and pairwise different values (sec B sec | sec/op sec/op | sec/op B/op sec/op | B/op sec/op B/op sec/op | ...), well-formed worlds of 1-2 hashes x 1-2 experiments x 1-2 benchmarks in 12 add orders and 3-4 result sets in ALL orders, through Builder.Add; and 2-3 files through Builder.AddFiles in every file order whose lines print ns/op next to sec/op, MB/s next to B/s, sec B sec (the reader's tidying makes the units coincide; the harness tidies its own reading); judged as every series case: each run is spec_series of the (result, value) pairs, so a cell's sample holds every measurement of the unit, each once. command: the REAL cmd/benchseries binary (go build of the module under test) on 1-3 generated files that carry BOTH the default key of every option and an alternative key (alt_stamp alt_run role alt_nh alt_dh; compare values Tip Base Exp Ctl), the selected key carrying a well-formed world and the other one a decoy world, with ONE option non-default at a time: -series -experiment -compare -numerator -denominator -numerator-hash -denominator-hash, both hash flags naming one key, 2-7 of them together, -filter (.unit:U / key:value / .name:N), -confidence (samples of 4-6 values), each CSV switch once (-csv=false -delta -change -values=false -change -threshold=0.5 on exact metrics -boring -log=false), input on stdin (no path / -), -ji with the JSON of an earlier run; flags spelled -f=v, -f v, --f=v; observed: exit status, the -jo JSON (axes, hash pairs, per cell date and summary), stdout; reference: the library with the options the flags are documented to set (both policies through the kind-2 checks; REPLACE with the flag's confidence and 1000 bootstraps for the summaries, JSON bytes and CSV bytes); plus the library alone with BuilderOptions.Table in {none, goos, goarch+goos, builder_id+goos, goos+pad, pad} and Ignore lists (no flag sets them). incremental-builder: ONE Builder: Add a part of a well-formed result set, AllComparisonSeries + AddSummaries, Add the rest (more values for trials already summarised / a further experiment for summarised series points), build and summarise again, under both policies; the second result is compared with FRESH builders over the whole set. series-from-files: 2-3 files read through one benchfmt.Files / Builder.AddFiles in every file order; the builder keys goos runstamp ser role nh dh are file-configuration lines in a shuffled header of 4-7 keys (plus padding keys); every later file omits its own subset, so its results have the empty value there. streams. multi-cell: a ComparisonSeries with 2-9 cells (always one pair with swapped numerator/denominator samples, identical cells, cells sharing only one sample, two series points sharing one baseline) summarised by ONE AddSummaries call, each cell compared with the same samples summarised alone. shared-baseline: DUPE_COMBINE aliasing class (one trial, several hashes, one baseline, each point re-measured by a later experiment). dates: pairs of timestamp texts in both accepted layouts (offsets, fractions incl. >9 digits and ',' separator, calendar edge days, years 0..9999), pairs denoting one instant, neighbouring instants, hostile mutations; range-end: four-digit-year texts whose zone offset moves the instant into year 10000 or year -1, paired with texts on either side of the end. bootstrap: samples (constant, near-constant, few-valued, positive, mixed-sign, zero denominators, extreme-positive: values above MaxFloat64/2, subnormal values, overflowing / underflowing quotients) x N in {1,2,3,50,500,1000,small random} x confidence in {0.5,0.9,0.95,0.99,edge,random}, through Builder.Add/AllComparisonSeries/AddSummaries and the tagged hooks, math/rand Intn stream recorded for replay. series: result sets over <=2 units x <=2 tables x <=3 benchmarks x <=4 experiments x <=4 hashes/series stamps (stamps in mixed layouts), well-formed worlds plus mutations a-g leaving the well-formed domain (judged in full: prop_ok compares them with spec_series too; the four series findings excuse only the places of Model/SeriesFindings.v), ill-formed: worlds whose mutation took effect, the five witnesses of the findings in every add order, alone and next to a well-formed table; each added in N random orders under DUPE_REPLACE and DUPE_COMBINE; AddSummaries (confidence in {0.5,0.9,0.95,0.99}, N in {1,2,3,5,8}) on the series of every run, each cell compared with the same multiset summarised as one experiment, Intn stream recorded per cell. interleaved-experiments: every series point measured by 2-3 experiments whose numerator and denominator values interleave (COMBINE must return the sorted multiset; summaries equal across add orders). multi-value-unit-lists: results carrying 2-3 values, same table keys, partially overlapping unit lists (ns/op B/op | ns/op MB/s | B/op ns/op ...) adjacent in the add order, 4-result sets in ALL 24 orders. spellings-of-one-instant: every result spells the series stamp of its hash in its own way (compact, Z, +00:00 / -00:00 with fractions .000 .500000 ,5 and >9 digits, another offset), instants differing only in the fraction; date pairs of such spellings (same instant, neighbours). non-trivial = more than 3 measurements / a date accepted / a sample of more than one value"
 	// the code under test reports hash-pair mismatches on os.Stderr directly
 	if devnull, err := os.OpenFile(os.DevNull, os.O_WRONLY, 0); err == nil {
 		saved := os.Stderr
@@ -1855,5 +1855,9 @@ func genC18(o *hx.Out, r *hx.Rng, tier string, replay string) error {
 		return err
 	}
 	// the real cmd/benchseries binary, one rarely used option at a time (c18cmd.go)
-	return c18GenCommand(o, r.Split(), tier)
+	if err := c18GenCommand(o, r.Split(), tier); err != nil {
+		return err
+	}
+	// the same (tidied) unit twice or more on one result line (c18dup.go)
+	return c18GenDupCases(o, r.Split(), tier)
 }
